@@ -60,4 +60,16 @@ theorem C18_exchange_prefix (s : Proto) (p : Packet) (k : Kind) (capture : Bool)
 /-- `BROADCAST_ADDRESS` in `src/protocol.rs` is the model's -/
 theorem C18_src_broadcast : SrcTie.broadcastOk = true := by decide
 
+/-- the multi-reply form drains the link: exactly the items up to and including the first "nothing" (or link error) are
+consumed; nothing else of the protocol state changes -/
+theorem C18_exchangeAll_drains (s : Proto) (k : Kind) (capture : Bool) (acc : List Event) (q : List (Except IfErr Packet)) :
+    (s.exchangeAllLoop k capture acc q).1 = { s with rxQueue := afterDrain q } :=
+  Ross.exchangeAllLoop_queue s k capture acc q
+
+/-- the multi-reply form propagates a link error that follows any number of packets -/
+theorem C18_exchangeAll_error (s : Proto) (k : Kind) (capture : Bool) (acc : List Event) (pre : List Packet) (t : Nat)
+    (post : List (Except IfErr Packet)) :
+    (s.exchangeAllLoop k capture acc (pre.map .ok ++ .error (.other t) :: post)).2 = .error (.interface t) :=
+  Ross.exchangeAllLoop_error s k capture acc pre t post
+
 end Ross.Props
